@@ -82,6 +82,11 @@ type PKI struct {
 	SrvEncOther                                                  *Ident // the GM encryption key certified for "other.test"
 	// certificates for the address 127.0.0.1 (iPAddress SAN), for clients that enter through Dial and take the name from the address
 	LoopSign, LoopEnc, LoopRSA *Ident
+	// SM2InterExpired: an issuing CA under SM2Root whose own validity has ended at Now; the three certificates below were
+	// issued by it (or, SrvSignViaInter, by the valid SM2Inter) and are themselves within their validity; TLS chains are [leaf, CA]
+	SM2InterExpired, SrvSignViaExpiredCA, ClientViaExpiredCA, SrvSignViaInter *Ident
+	// the same for the TLS side: RSA issuing CAs under RSARoot (one valid, one expired at Now) and a server certificate from each
+	RSAInter, RSAInterExpired, RSASrvViaInter, RSASrvViaExpiredCA *Ident
 	ECRoot, ECSrv                                                *Ident
 	RSAClient, ECClient                                          *Ident
 	RootsSM2, RootsStd, RootsAll                                 *gx.CertPool
@@ -221,6 +226,17 @@ func GetPKI() *PKI {
 		k, d = sm2Key(16)
 		p.ClientViaInter = mkSM2(valid(certOpt{cn: "client via intermediate", ku: signKU, eku: cliEKU}), k, d, p.SM2Inter)
 		p.ClientViaInter.TLS.Certificate = [][]byte{p.ClientViaInter.DER, p.SM2Inter.DER}
+		k, d = sm2Key(44)
+		p.SM2InterExpired = mkSM2(certOpt{cn: "SM2 Issuing CA (expired)", ca: true, ku: caKU, nb: Now.Add(-3 * y), na: Now.Add(-24 * time.Hour)}, k, d, p.SM2Root)
+		k, d = sm2Key(45)
+		p.SrvSignViaExpiredCA = mkSM2(valid(certOpt{cn: "srv sign", ku: signKU, eku: srvEKU, dns: []string{ServerName}}), k, d, p.SM2InterExpired)
+		p.SrvSignViaExpiredCA.TLS.Certificate = [][]byte{p.SrvSignViaExpiredCA.DER, p.SM2InterExpired.DER}
+		k, d = sm2Key(46)
+		p.ClientViaExpiredCA = mkSM2(valid(certOpt{cn: "client via expired CA", ku: signKU, eku: cliEKU}), k, d, p.SM2InterExpired)
+		p.ClientViaExpiredCA.TLS.Certificate = [][]byte{p.ClientViaExpiredCA.DER, p.SM2InterExpired.DER}
+		k, d = sm2Key(47)
+		p.SrvSignViaInter = mkSM2(valid(certOpt{cn: "srv sign", ku: signKU, eku: srvEKU, dns: []string{ServerName}}), k, d, p.SM2Inter)
+		p.SrvSignViaInter.TLS.Certificate = [][]byte{p.SrvSignViaInter.DER, p.SM2Inter.DER}
 		// RSA and ECDSA for the TLS side
 		rk, err := rsa.GenerateKey(rand.Reader, 2048)
 		if err != nil {
@@ -229,9 +245,15 @@ func GetPKI() *PKI {
 		p.RSARoot = mkStd(valid(certOpt{cn: "RSA Root", ca: true, ku: caKU}), &rk.PublicKey, rk, nil)
 		rk2, _ := rsa.GenerateKey(rand.Reader, 2048)
 		p.RSASrv = mkStd(valid(certOpt{cn: "rsa srv", ku: signKU | gx.KeyUsageKeyEncipherment, eku: srvEKU, dns: []string{ServerName}}), &rk2.PublicKey, rk2, p.RSARoot)
-		p.LoopRSA = mkStd(valid(certOpt{cn: "rsa loop", ku: signKU | gx.KeyUsageKeyEncipherment, eku: srvEKU, ips: []net.IP{net.IPv4(127, 0, 0, 1).To4()}}), &rk2.PublicKey, rk2, p.RSARoot)
-		p.RSASrvOther = mkStd(valid(certOpt{cn: "rsa srv other", ku: signKU | gx.KeyUsageKeyEncipherment, eku: srvEKU, dns: []string{"other.test"}}), &rk2.PublicKey, rk2, p.RSARoot)
 		rk3, _ := rsa.GenerateKey(rand.Reader, 2048)
+		p.LoopRSA = mkStd(valid(certOpt{cn: "rsa loop", ku: signKU | gx.KeyUsageKeyEncipherment, eku: srvEKU, ips: []net.IP{net.IPv4(127, 0, 0, 1).To4()}}), &rk2.PublicKey, rk2, p.RSARoot)
+		p.RSAInter = mkStd(valid(certOpt{cn: "RSA Issuing CA", ca: true, ku: caKU}), &rk3.PublicKey, rk3, p.RSARoot)
+		p.RSAInterExpired = mkStd(certOpt{cn: "RSA Issuing CA (expired)", ca: true, ku: caKU, nb: Now.Add(-3 * y), na: Now.Add(-24 * time.Hour)}, &rk3.PublicKey, rk3, p.RSARoot)
+		p.RSASrvViaInter = mkStd(valid(certOpt{cn: "rsa srv", ku: signKU | gx.KeyUsageKeyEncipherment, eku: srvEKU, dns: []string{ServerName}}), &rk2.PublicKey, rk2, p.RSAInter)
+		p.RSASrvViaInter.TLS.Certificate = [][]byte{p.RSASrvViaInter.DER, p.RSAInter.DER}
+		p.RSASrvViaExpiredCA = mkStd(valid(certOpt{cn: "rsa srv", ku: signKU | gx.KeyUsageKeyEncipherment, eku: srvEKU, dns: []string{ServerName}}), &rk2.PublicKey, rk2, p.RSAInterExpired)
+		p.RSASrvViaExpiredCA.TLS.Certificate = [][]byte{p.RSASrvViaExpiredCA.DER, p.RSAInterExpired.DER}
+		p.RSASrvOther = mkStd(valid(certOpt{cn: "rsa srv other", ku: signKU | gx.KeyUsageKeyEncipherment, eku: srvEKU, dns: []string{"other.test"}}), &rk2.PublicKey, rk2, p.RSARoot)
 		p.RSAClient = mkStd(valid(certOpt{cn: "rsa client", ku: signKU, eku: cliEKU}), &rk3.PublicKey, rk3, p.RSARoot)
 		ek, _ := ecdsa.GenerateKey(elliptic.P256(), rand.Reader)
 		p.ECRoot = mkStd(valid(certOpt{cn: "EC Root", ca: true, ku: caKU}), &ek.PublicKey, ek, nil)
